@@ -1,4 +1,5 @@
 mod codec;
+mod gsd;
 mod util;
 
 use std::io::{BufRead, Write};
@@ -18,6 +19,7 @@ impl Executor for Stateless {
 fn engine(name: &str) -> Option<(fn(&mut Vec<String>, u64, bool), Box<dyn Executor>)> {
     match name {
         "codec" => Some((codec::gen, Box::new(Stateless(codec::exec)))),
+        "gsd" => Some((gsd::gen, Box::new(Stateless(gsd::exec)))),
         _ => None,
     }
 }
